@@ -7,6 +7,7 @@ reply); every callback's duration is a choice point (default: instantaneous).
 All executions with at most d departures from the default are enumerated and a
 monitor checks the protocol invariants on the recorded event log."""
 import itertools
+import signal
 import struct
 
 from mc.explore import explore, Chooser, BudgetExceeded
@@ -148,6 +149,14 @@ def harness_seqs(start, mask=0xffff):
         i = (i + 1) & mask
 
 
+class WallTimeout(BaseException):
+    pass
+
+
+def _wall_alarm(signum, frame):
+    raise WallTimeout()
+
+
 def run_execution(cfg, ch, acc, observer=None):
     """One execution of the configured bursts under chooser `ch`.
     Returns a list of (kind, sig-extra, message) problems."""
@@ -207,7 +216,20 @@ def run_execution(cfg, ch, acc, observer=None):
             outcome = "return"
             exc = None
             try:
-                conn.send_scp_burst(256, cfg["window"], iter(cmds))
+                # wall-clock watchdog: a burst that spins without touching
+                # the (virtual) environment cannot be seen by its step budget
+                signal.signal(signal.SIGALRM, _wall_alarm)
+                signal.alarm(20)
+                try:
+                    conn.send_scp_burst(256, cfg["window"], iter(cmds))
+                finally:
+                    signal.alarm(0)
+            except WallTimeout as e:
+                problems.append(("no_termination", {},
+                                 "burst %d still running after 20 s of wall "
+                                 "clock time without exhausting the "
+                                 "environment's step budget" % b))
+                return problems, net, ep
             except sc.TimeoutError as e:
                 outcome, exc = "timeout", e
             except sc.FatalReturnCodeError as e:
